@@ -237,3 +237,158 @@ def run_c11(ctx):
 
 
 REGISTRY["C11"] = {"run": run_c11, "replay": lambda ctx, path: 2}
+
+
+# ---------------------------------------------------------------------------------------------
+# C10: tabulated parameters.  The lattice states of MCInterp.tla (grid, values, query point) are
+# mapped affinely to physical tables and operating points of Source - X - ILoad probes.
+C10_TARGETS = ["Converter.eff", "VLoss.vdrop", "LinReg.ig", "PSwitch.ig", "PMux.ig", "Rectifier.vdrop", "Rectifier.ig"]
+
+
+def _c10_probe(st, target, sign, rng):
+    import warnings
+    import sysloss.components as C
+    from sysloss.system import System
+    kind, key = target.split(".")
+    io_of = lambda x: 0.02 + 0.11 * x
+    vi_of = lambda y: 2.0 + 3.5 * y
+    xs, ys, f = st["xs"], st["ys"], st["f"]
+    lo, hi = {"eff": (0.55, 0.9), "vdrop": (0.1, 0.45), "ig": (2e-4, 3e-3)}[key]
+    fmax = max(max(r) for r in f) or 1
+    tab = {"vi": [vi_of(y) for y in ys], "io": [io_of(x) for x in xs],
+           key: [[lo + (hi - lo) * v / max(fmax, 1) for v in row] for row in f]}
+    const = lo + (hi - lo) * f[0][0] / max(fmax, 1)
+    I, V = io_of(st["qx"] / 2.0), vi_of(st["qy"] / 2.0)
+    if I <= 1e-4 or V <= 1.2:
+        return None
+    V = sign * V
+
+    def make(p):
+        if kind == "Converter":
+            return C.Converter("X", vo=1.8, eff=p, iq=1e-4)
+        if kind == "VLoss":
+            return C.VLoss("X", vdrop=p)
+        if kind == "LinReg":
+            return C.LinReg("X", vo=1.0 * (1 if sign > 0 else -1), vdrop=0.1, ig=p)
+        if kind == "PSwitch":
+            return C.PSwitch("X", rs=0.05, ig=p)
+        if kind == "PMux":
+            return C.PMux("X", rs=0.05, ig=p)
+        if key == "vdrop":
+            return C.Rectifier("X", vdrop=p)
+        return C.Rectifier("X", rs=0.02, ig=p, iq=1e-5)
+
+    def system(p):
+        with warnings.catch_warnings():
+            warnings.simplefilter("ignore")
+            s = System("probe", C.Source("S", vo=V))
+            s.add_comp("S", comp=make(p))
+            s.add_comp("X", comp=C.ILoad("L", ii=I))
+        return s
+    return system(tab), (system(const) if len({v for r in f for v in r}) == 1 else None)
+
+
+def run_c10(ctx):
+    import drv_solve
+    from props_solve import validate_cases
+    from props_struct import validate_twins
+    res = Result()
+    rng = ctx.rng
+    cfg = "MCInterpQ.cfg" if ctx.quick else "MCInterp.cfg"
+    states, cnt = tlc.run_states("MCInterp.tla", cfg, ctx.work)
+    cnt["name"] = "table semantics on integer grids x half-integer query lattice"
+    res.mc.append(cnt)
+    if not cnt["ok"]:
+        if "is violated" in cnt["out"]:
+            res.mc_failures.append(cnt["out"][cnt["out"].find("Error:"):][:3000])
+        else:
+            raise tlc.TLCError(cnt["out"][-2000:])
+    states = [s for s in states if s["qx"] != -99 and len(s["xs"]) >= 2]
+    n = 700 if ctx.quick else 20000
+    if len(states) > n:
+        states = rng.sample(states, n)
+    cases, twins, classes = [], [], {}
+    for st in states:
+        target = rng.choice(C10_TARGETS)
+        sign = -1 if rng.random() < 0.25 else 1
+        pr = _c10_probe(st, target, sign, rng)
+        if pr is None:
+            continue
+        s, sconst = pr
+        c = drv_solve.solve_case(s, len(cases))
+        c["target"] = target
+        cases.append(c)
+        onx = any(2 * x == st["qx"] for x in st["xs"])
+        ony = any(2 * y == st["qy"] for y in st["ys"])
+        inx = 2 * st["xs"][0] <= st["qx"] <= 2 * st["xs"][-1]
+        iny = 2 * st["ys"][0] <= st["qy"] <= 2 * st["ys"][-1]
+        cl = ("grid" if onx and ony else "line" if (onx or ony) and inx and iny else "interior" if inx and iny else "outside") + \
+             ("/2d" if len(st["ys"]) > 1 else "/1d")
+        classes[cl] = classes.get(cl, 0) + 1
+        if sconst is not None:
+            c2 = drv_solve.solve_case(sconst, 0)
+            # the two systems differ in the parameter form only: compare the tables cell by cell
+            twins.append({"id": 10 ** 6 + len(twins), "clause": "C10.ConstTable", "kind": "table", "exact": False,
+                          "what": target, "a": c["table"], "b": c2["table"], "outcome": "", "exc": "", "st": c["st"]})
+    validate_cases(ctx, res, cases)
+    if twins:
+        validate_twins(ctx, res, twins)
+    res.extra["probes"] = len(cases)
+    res.extra["query_classes"] = classes
+    res.extra["const_table_twins"] = len(twins)
+    res.extra["distinct_nontrivial"] = len(cases)
+    res.samples = [{"target": c["target"], "outcome": c["outcome"],
+                    "table": [x for x in c["st"]["comps"] if x["name"] == "X"][0]["pay"]["params"]} for c in cases[:2]]
+    res.assumptions = ["integer lattice states are mapped affinely to physical axes (io = 0.02 + 0.11 x, vi = 2 + 3.5 y), which preserves grid points, grid lines, cells and the outside directions",
+                       "inside a 2-D cell either Delaunay diagonal is admissible"]
+    return conclude("C10", ctx, res, rule="states of MCInterp.tla (grid shape 2-3 x 1-2, 0/1 values, query on / between / outside the grid) instantiated as "
+                    "Source - X - ILoad probes for eff / vdrop / ig tables on the six kinds, both supply polarities; the solved row of X must follow its law with an "
+                    "admissible table value; tables of equal entries must solve like the constant")
+
+
+REGISTRY["C10"] = {"run": run_c10, "replay": lambda ctx, path: 2}
+
+
+# ---------------------------------------------------------------------------------------------
+def run_c19(ctx):
+    import shutil
+    import tempfile
+    import drv_diag
+    import drv_solve
+    import gen
+    from props_solve import build_behaviours, struct_digest
+    from project import project
+    res = Result()
+    rng = ctx.rng
+    n_sys = 60 if ctx.quick else 1000
+    behs = build_behaviours(ctx, n_sys + 5, depths=(4, 7, 10, 13))
+    tmp = tempfile.mkdtemp(prefix="sl_diag_")
+    cases, structs = [], set()
+    try:
+        for st in behs[:n_sys]:
+            s = drv_solve.build_system(st, gen.Gen(rng, neg=0.1, tables=0.1), rng)
+            pj = project(s)
+            structs.add(struct_digest(pj))
+            for heat in (False, True):
+                for _ in range(1 if ctx.quick else 2):
+                    conf = drv_diag.random_conf(rng, pj) if rng.random() < 0.7 else None
+                    cases.append(drv_diag.render_case(s, len(cases), heat, rng.random() < 0.7, conf, tmp))
+    finally:
+        shutil.rmtree(tmp, ignore_errors=True)
+    _validate(ctx, res, "TraceDiag.tla", "TraceDiag.cfg", cases)
+    res.extra["renderings"] = len(cases)
+    res.extra["distinct_nontrivial"] = len(structs)
+    res.extra["outcomes"] = {}
+    for c in cases:
+        k = "%s:%s" % ("heat" if c["heat"] else "plain", c["outcome"])
+        res.extra["outcomes"][k] = res.extra["outcomes"].get(k, 0) + 1
+    res.samples = [{"heat": c["heat"], "group": c["group"], "nodes": [n["name"] for n in c["nodes"]], "clusters": [k["label"] for k in c["clusters"]]}
+                   for c in cases[:3]]
+    res.assumptions = ["diagrams are rendered to the dot source (fname=*.raw) and parsed back with pydot; graphviz layout is not exercised",
+                       "label value within 0.5 % of the duration-weighted loss = three significant digits"]
+    return conclude("C19", ctx, res, rule="plain and heat diagrams of generated systems (groups, several sources, mux, phases), grouping on/off, default and random "
+                    "configurations (default / kind / name / cluster / edge overrides, three rank directions): node, edge and cluster sets, attribute precedence, "
+                    "unchanged caller configuration, heat labels, colour order, extremes and legend")
+
+
+REGISTRY["C19"] = {"run": run_c19, "replay": lambda ctx, path: 2}
